@@ -179,6 +179,16 @@ func cmdC17(c *ctx) {
 		} else {
 			emit(fmt.Sprintf("(c17msl %s %s)", desc, mapS), "args "+mslArgs(mtxt), "msl")
 		}
+		// ---- MSL without a map and without FakeMissingBindings: slots are assigned automatically, sequentially per
+		// resource kind over all bound globals sorted by (group, binding) (documented at computeResourceMap)
+		ao := msl.DefaultOptions()
+		var atxt string
+		r = guard("msl", func() error { s, _, err := msl.Compile(mod, ao); atxt = s; return err })
+		if r.err != "" {
+			emit(fmt.Sprintf("(c17mslauto %s)", desc), "error "+oneLine(r.err), "msl-auto")
+		} else {
+			emit(fmt.Sprintf("(c17mslauto %s)", desc), "args "+mslArgs(atxt), "msl-auto")
+		}
 		// ---- GLSL: one compile per entry point
 		for _, e := range mm.entries {
 			gopts := glsl.Options{LangVersion: glsl.Version430, EntryPoint: e.name, BindingMap: map[glsl.BindingMapKey]uint8{}}
